@@ -133,6 +133,9 @@ fn sig_form(f: &str) -> String {
 }
 
 pub fn count_forms(p: &Prepared, which: &[&'static str], acc: &mut Acc) {
+    for tag in p.out.facts.positions.iter().filter(|t| t.starts_with("try-") || t.starts_with("catch-")) {
+        acc.cov(&format!("programs-with:{}", tag));
+    }
     for (d, form, pos) in &p.out.forms {
         if which.contains(d) {
             acc.cov(&format!("form:{}:{}", d, form));
